@@ -47,7 +47,7 @@ var (
 	corpus   = flag.String("corpus", "", "corpus file: <plan tree>\\t<root tree> per line")
 	known    = flag.String("known", "", "known_findings.json")
 	nworkers = flag.Int("workers", 12, "implementation worker subprocesses")
-	dev      = flag.String("dev", "cdnlf", "deviations the current tree is expected to have: c lt/lte/gt/gte dispatch on the unevaluated first argument, d float division by zero gives Inf, n cond list value is nil, l plan literals are shared, f comparisons through float64; - none")
+	dev      = flag.String("dev", "fa", "deviations the current tree is expected to have: c lt/lte/gt/gte dispatch on the unevaluated first argument, d float division by zero gives Inf, n cond list value is nil, l plan literals are shared, f comparisons through float64, a a cond list value is the plan's own list; - none")
 	isWorker = flag.Bool("worker", false, "run as implementation worker (internal)")
 	dump     = flag.Int("dump", 0, "print every n-th case with the implementation's and the model's answer (debugging)")
 )
@@ -61,6 +61,7 @@ var devIDs = map[byte]string{
 	'n': "C20-cond-list-value",
 	'l': "C20-literal-aliasing",
 	'f': "C20-cmp-float-2p53",
+	'a': "C20-cond-list-alias",
 }
 
 const (
@@ -333,6 +334,7 @@ func boundaryCases() []kase {
 		mk("wrap-product", "set", "$.asm", []any{"*", int64(1 << 62), int64(4), int64(3)}),
 		mk("cond-list", "set", "$.asm", []any{"cond", []any{true, []any{int64(1), int64(2), int64(3)}}}),
 		mk("cond-fn", "set", "$.asm", []any{"cond", []any{false, int64(1)}, []any{[]any{"lt", int64(1), int64(2)}, []any{"list", int64(1)}}}),
+		mk("cond-list-alias", []any{"set", "$.asm", []any{"cond", []any{true, []any{int64(0), int64(7)}}}}, []any{"set", "$.asm[0]", []any{"sum", "$.asm[0]", int64(1)}}),
 		mk("literal-alias", []any{"set", "$.asm", map[string]any{"n": int64(0)}}, []any{"set", "$.asm.n", []any{"sum", "$.asm.n", int64(1)}}),
 		mk("literal-alias-each", []any{"set", "$.asm", []any{"each", "$.src.l", []any{"set", "@.asm", map[string]any{"n": int64(0)}}}},
 			[]any{"set", "$.asm[0].n", int64(5)}),
@@ -547,8 +549,12 @@ func judge(d *lib.Driver, k *kase, w WOut, v verdicts) {
 	enumer := enumerates(mustTree(k.plan)) || hasStop(v.cur, "enum")
 	if impl1 != impl2 || impl1 != fresh {
 		switch {
-		case curOK && canonFloats(v.cur) == implRuns && impl1 == fresh && modelled1(v.ideal) && sameRuns(v.ideal) && strings.Contains(*dev, "l"):
-			addKnown(k, devIDs['l'], "rerun:literal-aliasing", "the second Execute of the same *Plan differs: the first run edited a literal of the plan (the model predicts both results; without literal sharing both runs agree)")
+		case curOK && canonFloats(v.cur) == implRuns && impl1 == fresh && modelled1(v.ideal) && sameRuns(v.ideal) && strings.ContainsAny(*dev, "la"):
+			id := devIDs['a']
+			if strings.Contains(*dev, "l") {
+				id = devIDs['l']
+			}
+			addKnown(k, id, "rerun:literal-aliasing", "the second Execute of the same *Plan differs: the first run edited a literal of the plan (the model predicts both results; without literal sharing both runs agree)")
 		case enumer:
 			addKnown(k, idMapOrder, "rerun:map-order", "runs differ; the plan enumerates a map (Go map iteration order)")
 		default:
